@@ -10,6 +10,7 @@ from z3 import *
 from pyvc.core import *
 
 PROPS = ['C13', 'C14']
+REPLAY = {'driver': 'delay'}
 REL = 'taskiq/cli/scheduler/run.py'
 US = 1000000
 TRUSTED = [
